@@ -231,10 +231,15 @@ func (n *BaseMember) DecodeJSON(b []byte, enc encoder.Encoder) error {
 		return e.Wrap(err)
 	}
 
-	n.name = u.Name
-	n.addr = addr
-	n.joinedAt = u.JoinedAt
-	n.meta = meta
+	// NOTE meta bytes and publish are derived from meta
+	m, err := newMemberWithMeta(u.Name, addr, meta)
+	if err != nil {
+		return e.Wrap(err)
+	}
+
+	m.joinedAt = u.JoinedAt
+
+	*n = m
 
 	return nil
 }
